@@ -663,7 +663,8 @@ class DocumentationAggregator(CMakeListener):
     def enterDocumented_module(self, ctx: CMakeParser.Documented_moduleContext) -> None:
         text = ctx.Module_docstring().getText()
         cleaned_lines = DocumentationAggregator.clean_doc_lines(text.split("\n")).split("\n")
-        module_name = cleaned_lines[0].replace("@module", "").strip()
+        # Only the tag itself is removed, the name may contain the same text
+        module_name = cleaned_lines[0].replace("@module", "", 1).strip()
         doc = "\n".join(cleaned_lines[1:])
         self.documented.append(ModuleDocumentation(module_name, doc))
 
